@@ -109,36 +109,56 @@ Definition digit_raw (c : N) : option Z :=
 Definition two63 : Z := 9223372036854775808.
 Definition two64 : Z := 18446744073709551616.
 
-(* loop state: any (0, 1, -1), acc (uint64_t in the repaired code), chars eaten *)
+Definition tolower_is_x (c : N) : bool := ((c =? 120) || (c =? 88))%N.
+
+(* digit value accepted in this base; None = the loop breaks here *)
+Definition digit_of (base : Z) (c : N) : option Z :=
+  match digit_raw c with
+  | Some d => if d >=? base then None else Some d
+  | None => None
+  end.
+
+(* loop state: any (0, 1, -1), acc (uint64_t since the F1 repair), chars eaten *)
 Record i64st := { st_any : Z; st_acc : Z; st_n : N }.
 
 Fixpoint int64_loop (base cutoff cutlim : Z) (l : bytes) (st : i64st) : i64st :=
   match l with
   | [] => st
   | c :: r =>
-      match digit_raw c with
+      match digit_of base c with
       | None => st
       | Some d =>
-          if d >=? base then st
-          else
-            let st' :=
-              if (st_any st <? 0) || (st_acc st >? cutoff) || ((st_acc st =? cutoff) && (d >? cutlim))
-              then {| st_any := -1; st_acc := st_acc st; st_n := N.succ (st_n st) |}
-              else {| st_any := 1; st_acc := (st_acc st * base + d) mod two64; st_n := N.succ (st_n st) |}
-            in int64_loop base cutoff cutlim r st'
+          let st' :=
+            if (st_any st <? 0) || (st_acc st >? cutoff) || ((st_acc st =? cutoff) && (d >? cutlim))
+            then {| st_any := -1; st_acc := st_acc st; st_n := N.succ (st_n st) |}
+            else {| st_any := 1; st_acc := (st_acc st * base + d) mod two64; st_n := N.succ (st_n st) |}
+          in int64_loop base cutoff cutlim r st'
       end
   end.
 
-Definition tolower_is_x (c : N) : bool := ((c =? 120) || (c =? 88))%N.
+(* everything after sign/prefix/base selection *)
+Definition int64_core (base : Z) (neg : bool) (r2 : bytes) (n2 : N) : option (Z * N) :=
+  match r2 with
+  | [] => None
+  | _ =>
+    let cutfull := if neg then two63 else two63 - 1 in
+    let cutlim := cutfull mod base in
+    let cutoff := cutfull / base in
+    let st := int64_loop base cutoff cutlim r2 {| st_any := 0; st_acc := 0; st_n := n2 |} in
+    if st_any st =? 0 then None
+    else if st_any st <? 0 then None
+    else Some (if neg then - st_acc st else st_acc st, st_n st)
+  end.
 
-(* result: Some (value, consumed) or None (false, nothing consumed) *)
-Definition tok_int64 (base0 : Z) (allowSign : bool) (limit : N) (buf : bytes) : option (Z * N) :=
+(* sign, 0x prefix and base selection, parameterised by the core so that the
+   reference below shares this part definitionally *)
+Definition int64_front (core : Z -> bool -> bytes -> N -> option (Z * N))
+           (base0 : Z) (allowSign : bool) (limit : N) (buf : bytes) : option (Z * N) :=
   match buf with
   | [] => None
   | _ =>
     if (limit =? 0)%N then None else
     let range := takeN limit buf in
-    (* sign *)
     let '(neg, r1, n1, stop1) :=
       if allowSign then
         match range with
@@ -148,7 +168,6 @@ Definition tok_int64 (base0 : Z) (allowSign : bool) (limit : N) (buf : bytes) : 
         end
       else (false, range, 0%N, false) in
     if stop1 then None else
-    (* 0x prefix *)
     let '(base1, r2, n2) :=
       match r1 with
       | 48%N :: x :: r => if ((base0 =? 0) || (base0 =? 16)) && tolower_is_x x
@@ -156,15 +175,71 @@ Definition tok_int64 (base0 : Z) (allowSign : bool) (limit : N) (buf : bytes) : 
       | _ => (base0, r1, n1)
       end in
     let base := if base1 =? 0 then match r2 with 48%N :: _ => 8 | _ => 10 end else base1 in
-    match r2 with
-    | [] => None
-    | _ =>
-      let cutfull := if neg then two63 else two63 - 1 in
-      let cutlim := cutfull mod base in
-      let cutoff := cutfull / base in
-      let st := int64_loop base cutoff cutlim r2 {| st_any := 0; st_acc := 0; st_n := n2 |} in
-      if st_any st =? 0 then None
-      else if st_any st <? 0 then None
-      else Some (if neg then - st_acc st else st_acc st, st_n st)
-    end
+    core base neg r2 n2
   end.
+
+(* Tokenizer::int64: Some (value, consumed) or None (false, nothing consumed) *)
+Definition tok_int64 := int64_front int64_core.
+
+(* ---- reference: arbitrary-precision reading of the same digits ---- *)
+Fixpoint digit_run (base : Z) (l : bytes) : list Z :=
+  match l with
+  | [] => []
+  | c :: r => match digit_of base c with Some d => d :: digit_run base r | None => [] end
+  end.
+Definition digits_value (base : Z) (ds : list Z) (acc : Z) : Z :=
+  fold_left (fun a d => a * base + d) ds acc.
+Definition ref_core (base : Z) (neg : bool) (r2 : bytes) (n2 : N) : option (Z * N) :=
+  let ds := digit_run base r2 in
+  match ds with
+  | [] => None
+  | _ =>
+    let v := digits_value base ds 0 in
+    let cutfull := if neg then two63 else two63 - 1 in
+    if v >? cutfull then None
+    else Some (if neg then - v else v, (n2 + lenN ds)%N)
+  end.
+Definition ref_int64 := int64_front ref_core.
+
+(* ---- strtoll(start, &end, 10) as glibc implements it, on the bytes before the first NUL ---- *)
+Definition is_c_space (c : N) : bool := ((c =? 32) || ((9 <=? c) && (c <=? 13)))%N.
+Fixpoint skip_space (l : bytes) (n : N) : bytes * N :=
+  match l with
+  | c :: r => if is_c_space c then skip_space r (N.succ n) else (l, n)
+  | [] => (l, n)
+  end.
+Fixpoint c_string (l : bytes) : bytes :=
+  match l with [] => [] | c :: r => if (c =? 0)%N then [] else c :: c_string r end.
+
+(* result: (value, consumed, erange); consumed = 0 when no digits were found *)
+Definition strtoll10 (s : bytes) : Z * N * bool :=
+  let '(l1, n1) := skip_space (c_string s) 0%N in
+  let '(neg, l2, n2) :=
+    match l1 with
+    | 45%N :: r => (true, r, N.succ n1)
+    | 43%N :: r => (false, r, N.succ n1)
+    | _ => (false, l1, n1)
+    end in
+  let ds := digit_run 10 l2 in
+  match ds with
+  | [] => (0, 0%N, false)
+  | _ =>
+    let v := digits_value 10 ds 0 in
+    if neg then (if v >? two63 then (- two63, (n2 + lenN ds)%N, true) else (- v, (n2 + lenN ds)%N, false))
+    else (if v >? two63 - 1 then (two63 - 1, (n2 + lenN ds)%N, true) else (v, (n2 + lenN ds)%N, false))
+  end.
+
+(* httpHeaderParseOffset: Some (value, end offset) *)
+Definition parse_offset (s : bytes) : option (Z * N) :=
+  let '(v, n, erange) := strtoll10 s in
+  if erange then None            (* ERANGE with LLONG_MIN/LLONG_MAX *)
+  else if (n =? 0)%N then None   (* start == end *)
+  else Some (v, n).
+
+(* httpHeaderParseInt after the F3 repair: strtol + int range check *)
+Definition two31 : Z := 2147483648.
+Definition parse_int (s : bytes) : option Z :=
+  let '(v, n, erange) := strtoll10 s in
+  if erange || (v <? - two31) || (v >? two31 - 1) then None
+  else if (v =? 0) && negb (match c_string s with c :: _ => is_digit c | [] => false end) then None
+  else Some v.
